@@ -318,11 +318,23 @@ def calls_for(rng, fut, n_random=30, full=False):
     out.append(('read_correlated_diagonal', (0, 0, 1000, None, None)))
     out.append(('read_correlated_diagonal', (0, 1, 1, None, None)))
     out.append(('read_anticorrelated_diagonal', (1, 0, 1, n_s, n_s + 1)))
+    # crops that are short enough but END past the diagonal, on diagonals that stop at the crossline edge before the last
+    # inline (negative ids) and at the last inline (positive ids): the position past the end belongs to another line
+    for dg in sorted({-1, -2, -(n_xl - 2), 1, 2, n_il - 2} & set(range(-n_xl + 1, n_il))):
+        L = szutils.get_correlated_diagonal_length(dg, n_il, n_xl)
+        if L >= 2:
+            for ab in ((1, L + 1), (L - 1, L + 1), (L // 2, L + 1)):
+                out.append(('read_correlated_diagonal', (dg, ab[0], ab[1], None, None)))
+    for dg in sorted({1, 2, n_xl - 2, n_xl, n_il + n_xl - 3} & set(range(0, n_il + n_xl - 1))):
+        L = szutils.get_anticorrelated_diagonal_length(dg, n_il, n_xl)
+        if L >= 2:
+            for ab in ((1, L + 1), (L - 1, L + 1)):
+                out.append(('read_anticorrelated_diagonal', (dg, ab[0], ab[1], None, None)))
     # empty, reversed and over-long crops and sample windows of BOTH diagonal families (the longest diagonals)
     for meth, dg, L in (('read_correlated_diagonal', 0, szutils.get_correlated_diagonal_length(0, n_il, n_xl)),
                         ('read_anticorrelated_diagonal', min(n_il, n_xl) - 1, szutils.get_anticorrelated_diagonal_length(min(n_il, n_xl) - 1, n_il, n_xl))):
         m = max(1, L // 2)
-        for ab in ((m, m), (0, 0), (L, L), (m, m - 1), (L, 0), (0, L + 1), (-1, L), (L, L + 1)):
+        for ab in ((m, m), (0, 0), (L, L), (m, m - 1), (L, 0), (0, L + 1), (-1, L), (L, L + 1), (1, L + 1), (m, L + 1), (L - 1, L + 1)):
             out.append((meth, (dg, ab[0], ab[1], None, None)))
         z = max(1, n_s // 2)
         for w in ((z, z), (0, 0), (n_s, n_s), (z, z - 1), (0, n_s + 1), (-1, n_s)):
